@@ -21,6 +21,8 @@ class Tests:
         self.bool_edges = []
         self.disc_edges = []
         self.int_edges = []
+        self.bool_phis = []     # (defs [(block, "true"|"false"|"expr")], true block, false block, test block)
+        self._phi_pending = []
         self._scan()
 
     def _scan(self):
@@ -95,6 +97,17 @@ class Tests:
                 if steps and len(defs.get(cur, [])) != 1:
                     # multi-def bool local (e.g. short-circuit temporary): treat its value as the atom
                     expr = ("val", pv.local(cur))
+                    # and remember how it is defined: `t = a && b` is `if a { t = b } else { t = false }`,
+                    # so t == true implies the block assigning `b` ran (and everything guarding it)
+                    info = []
+                    for db, si in defs.get(cur, []):
+                        kind = "expr"
+                        if si != "term":
+                            rr = f.blocks[db]["st"][si]["r"]
+                            if rr["k"] == "use" and "k" in rr["o"] and "bool" in rr["o"]["k"]:
+                                kind = "true" if rr["o"]["k"]["bool"] else "false"
+                        info.append((db, kind))
+                    self._phi_pending.append((cur, info, neg, bi))
                 else:
                     continue
             if f.local_ty(l).get("k") in ("uint", "int") and expr[0] in ("call", "val"):
@@ -114,6 +127,9 @@ class Tests:
             if neg:
                 tb, fb = fb, tb
             self.bool_edges.append((expr, tb, fb, bi))
+            if self._phi_pending and self._phi_pending[-1][3] == bi:
+                cur_, info, _, _ = self._phi_pending.pop()
+                self.bool_phis.append((info, tb, fb, bi))
             # short-circuit `a && b` / `a || b`: a phi-valued temporary; edges of the parts are scanned on their own switches
 
     # -- queries ------------------------------------------------------------------------
@@ -126,7 +142,19 @@ class Tests:
                 out.append((tb, sb))
             if pred(atom, False):
                 out.append((fb, sb))
-        return out
+        # implied through short-circuit temporaries: when only one definition can make the temporary
+        # true (false), its true (false) edge implies every edge guarding that definition
+        extra = []
+        for _ in range(2):
+            for info, tb, fb, sb in self.bool_phis:
+                for want, edge in (("false", tb), ("true", fb)):
+                    srcs = [db for db, kind in info if kind != want]
+                    if len(srcs) != 1:
+                        continue
+                    D = srcs[0]
+                    if any(edge_dominates(self.fn, g, gs, D) for g, gs in out + extra) and (edge, sb) not in out and (edge, sb) not in extra:
+                        extra.append((edge, sb))
+        return out + extra
 
     def int_blocks(self, expr_pred, value_pred):
         """(block, test block) reached only when an integer-valued expression satisfying expr_pred
